@@ -258,3 +258,31 @@ pub fn eq_cross<H1: HB, H2: HB>(a: &AnyQ<H1>, b: &AnyQ<H2>) -> Result<(), String
         }
     }
 }
+
+/// `b.clone_from(&a)` on clones of two explored states: the result must be a faithful clone of a.
+pub fn clone_from_pair<H: HB>(a: &AnyQ<H>, b: &AnyQ<H>, universe: &[u32]) -> Result<(), String> {
+    fn go<Q: QueueLike>(a: &Q, b: &Q, universe: &[u32]) -> Result<(), String> {
+        let sa = a.snap();
+        let ma = model_of(&sa);
+        let mut d = b.clone();
+        let r = catch_unwind(AssertUnwindSafe(|| d.q_clone_from(a)));
+        if let Err(e) = r {
+            return Err(format!("clone_from panicked: {}", panic_text(&e)));
+        }
+        let sd = d.snap();
+        check_state(&d, &sd, &ma, false, universe).map_err(|e| format!("after target.clone_from(&source) (target held {:?}): {e}", b.snap().slots))?;
+        if sd != sa {
+            return Err(format!("clone_from gives a different arrangement than its source: {sd:?} vs {sa:?}"));
+        }
+        if !d.q_eq(a) || a.snap() != sa {
+            return Err("clone_from result is not == its source, or changed the source".into());
+        }
+        check_deep(&d, &ma, false).map_err(|e| format!("after clone_from: {e}"))?;
+        Ok(())
+    }
+    match (a, b) {
+        (AnyQ::P(a), AnyQ::P(b)) => go(a, b, universe),
+        (AnyQ::D(a), AnyQ::D(b)) => go(a, b, universe),
+        _ => Ok(()),
+    }
+}
